@@ -19,12 +19,20 @@ Theorem C03_single : forall c w e um a r, plain_env e = true ->
 Proof. exact C03_single_proof. Qed.
 Print Assumptions C03_single.
 
-(* (c) umount -all.  For this command and a plain environment the predicate is the conjunction
-   [all_safe && all_outcome] (C03_all_split).
+(* without an installation (base directories / skeleton missing, layers not a forest) every form
+   of the command fails and leaves everything unchanged: the precondition of the predicate *)
+Theorem C03_not_set_up : forall c w e um n all, plain_env e = true -> set_up c w = false ->
+  C03.step_spec c w (view_of_model c w e (CUmount n all) um) = true.
+Proof. exact C03P.C03_not_set_up. Qed.
+Print Assumptions C03_not_set_up.
+
+(* (c) umount -all.  For this command, a plain environment and an installation the predicate is
+   the conjunction [all_safe && all_outcome] (C03_all_split).
    Safety -- every call legal inside the build roots, mounts outside them untouched, layers
-   processed descendants first -- holds for every world with a well-formed table, unique layer
+   processed descendants first, no layer touched that is still overlain at the end -- holds for every world with a well-formed table, unique layer
    names and build roots that are proper, pairwise unrelated directories. *)
 Theorem C03_all_split : forall c w v, v_cmd v = CUmount [] true -> plain_env (v_env v) = true ->
+  set_up c w = true ->
   C03.step_spec c w v = C03AllP.all_safe c w v && C03AllP.all_outcome c w v.
 Proof. exact C03AllP.step_spec_all. Qed.
 Print Assumptions C03_all_split.
@@ -35,7 +43,8 @@ Proof. exact C03AllP.C03_all_safety_proof. Qed.
 Print Assumptions C03_all_safety.
 
 (* the whole predicate, ROk / RFail clauses included, under the further decidable hypotheses of
-   [C03_all_hyp]; docs/proofs-C03-C04.md gives for each of them the world that refutes the
+   [C03_all_hyp] (well-formed parent ids, no trailing slash in the directory settings, overlays
+   placed on descendants); docs/proofs-C03-C04.md gives for each of them the world that refutes the
    predicate without it *)
 Theorem C03_all_partial : forall c w e um, plain_env e = true -> C03AllP.C03_all_hyp c w = true ->
   C03.step_spec c w (view_of_model c w e (CUmount [] true) um) = true.
@@ -75,22 +84,29 @@ Print Assumptions C03_model_partial.
 
 (* the kernel well-formedness assumed above (unique mount ids; a line's parent id is never a
    later line, and a later line naming k as parent lies at or under k) is an invariant of the
-   kernel model: kept by umount(2), and by every mount(2) that appends one line with a fresh id *)
+   kernel model: kept by umount(2) and by mount(2) *)
 Theorem C03_kernel_inv_umount : forall ks t fl ks', kumount ks t fl = KOk ks' ->
   KernelInvP.kinv (ks_tab ks) ->
   KernelInvP.kinv (ks_tab ks') /\ (wf_table (ks_tab ks) = true -> wf_table (ks_tab ks') = true).
 Proof. exact KernelInvP.kumount_preserves. Qed.
 Print Assumptions C03_kernel_inv_umount.
 
+(* every successful mount(2) of the kernel model -- bind, recursive bind with all its submount
+   copies, overlay, any other file system, remount, propagation change -- keeps unique ids,
+   well-formed parent ids and the numbering ([numbered]: ids and parent ids are decimals of numbers
+   below the next id, ids from 2 on), as long as the next id still has at most 24 digits *)
 Theorem C03_kernel_inv_mount : forall fs ks src tgt fstype flags data ks',
   kmount fs ks src tgt fstype flags data = KOk ks' ->
-  KernelInvP.kinv (ks_tab ks) ->
-  ~ In (dec (ks_nextid ks)) (kids (ks_tab ks)) -> ~ In (dec (ks_nextid ks)) (map k_parent (ks_tab ks)) ->
-  (covering (ks_tab ks) tgt = None -> ~ In (bs "1") (kids (ks_tab ks))) ->
-  (has_flag flags MS_REC = true -> filter (fun m => under src (k_mp m)) (ks_tab ks) = []) ->
-  KernelInvP.kinv (ks_tab ks').
-Proof. exact KernelInvP.kmount_preserves. Qed.
+  KernelInvP.kinv2 ks -> (ks_nextid ks' <= KernelInvP.idmax)%N -> KernelInvP.kinv2 ks'.
+Proof. exact KernelInvP.kmount_preserves_all. Qed.
 Print Assumptions C03_kernel_inv_mount.
+
+(* ... and the table stays printable, provided the file-system type given to mount(2) has no blank *)
+Theorem C03_kernel_wf_table_mount : forall fs ks src tgt fstype flags data ks',
+  kmount fs ks src tgt fstype flags data = KOk ks' ->
+  wf_table (ks_tab ks) = true -> nospace fstype = true -> wf_table (ks_tab ks') = true.
+Proof. exact KernelInvP.kmount_wf_table. Qed.
+Print Assumptions C03_kernel_wf_table_mount.
 
 (* where the build-root hypotheses come from: LAYERS clean and absolute, the build-root setting a
    non-empty relative path of plain components; then every build root is
